@@ -655,6 +655,9 @@ func (k *Kernel) fireLinkLocked(l *link) {
 		l.recv = append(l.recv, head.data[:n:n])
 		head.data = head.data[n:]
 	}
+	if k.DumpNet != nil {
+		k.DumpNet(c.id, c.toAddr, l.dir, l.recv[len(l.recv)-1])
+	}
 	l.recvN += n
 	l.delivered += int64(n)
 	k.logLocked("DD", int64(c.id), int64(n), "")
